@@ -54,6 +54,24 @@ def run(ctx):
         if ps is None: continue
         e = guarded('pair_within_simultaneously', rp, lambda: '(pws_ok %s %s)' % (cnl(lab), cpairings(ps)))
         if e: add('pair_within_simultaneously', e, rp, key=n)
+    # longer lists (block sizes like (4,5,5,5), (6,7,7,7) only occur from length 19 on): the same quadruple-coverage
+    # property decided by a direct enumeration in the harness (supporting; the Coq checker covers the shorter lists)
+    for n in range(N(17, 33), N(45, 81)):
+        lab = list(range(n)); rp = {'call': 'pair_within_simultaneously', 'labels': 'range(%d)' % n}
+        ps = guarded('pair_within_simultaneously', rp, lambda: [tuple(p) for p in fp.pair_within_simultaneously(lab)])
+        if ps is None: continue
+        covered = set(); bad = None
+        for pairing in ps:
+            prs = [tuple(e) for e in pairing if isinstance(e, tuple) and len(e) == 2]
+            flat_ = [x for e in prs for x in e] + [e for e in pairing if not isinstance(e, tuple)] + [e[0] for e in pairing if isinstance(e, tuple) and len(e) == 1]
+            if sorted(flat_) != lab: bad = 'a pairing is not a partition of the labels into pairs (and at most one single)'
+            for a_ in range(len(prs)):
+                for b_ in range(a_ + 1, len(prs)): covered.add(frozenset(prs[a_] + prs[b_]))
+        ctx.count('pair_within_simultaneously_long', 1, nontrivial_key=n)
+        if bad is None:
+            miss = next((q for q in itertools.combinations(lab, 4) if frozenset(q) not in covered), None)
+            if miss is not None: bad = 'the quadruple %r is never split into two simultaneous pairs' % (miss,)
+        if bad: ctx.violation('C18 pair_within_simultaneously(range(%d)): %s' % (n, bad), rp)
     # symmetric / binned variants: quadruples whose bin indices xor to zero must be covered
     for nf in range(2, N(7, 11)):
         for ns in range(0, 4):
